@@ -210,6 +210,17 @@ RECURSIVE DeployFrom(_, _, _)
 DeployFrom(st, prog, i) == IF i > Len(prog) THEN st ELSE DeployFrom(DeployStep(st, prog[i]), prog, i + 1)
 DeployOp(g, prog) == DeployFrom([g |-> g, tab |-> <<>>, lim |-> TRUE], prog, 1)
 
+\* a named family of short programs for the bounded instances (World!WDeploy, SodgX!Deploy): every command kind, a variable
+\* used twice, two variables, a literal next to a variable
+LitR(i) == [k |-> "lit", id |-> i]
+VarR(n) == [k |-> "var", name |-> n]
+ScriptFamily(ids, labels, vals) ==
+  {<<[c |-> "ADD", v |-> VarR("x")]>>, <<[c |-> "ADD", v |-> VarR("x")], [c |-> "ADD", v |-> VarR("y")]>>}
+  \cup {<<[c |-> "ADD", v |-> VarR("x")], [c |-> "PUT", v |-> VarR("x"), d |-> d]>> : d \in vals}
+  \cup {<<[c |-> "ADD", v |-> VarR("x")], [c |-> "BIND", v1 |-> LitR(i), v2 |-> VarR("x"), a |-> a]>> : i \in ids, a \in labels}
+  \cup {<<[c |-> "ADD", v |-> VarR("x")], [c |-> "BIND", v1 |-> VarR("x"), v2 |-> LitR(i), a |-> a]>> : i \in ids, a \in labels}
+  \cup {<<[c |-> "ADD", v |-> LitR(i)], [c |-> "ADD", v |-> VarR("x")]>> : i \in ids}
+
 (* ----------------------------- shape predicates ------------------------ *)
 \* the graph, seen from root r, is a tree of present vertices covering everything present
 RECURSIVE Below(_, _, _)
